@@ -70,10 +70,15 @@ def run_check(prop: str, tier: str) -> int:
         if ok and tier == "thorough":
             okc, logc, ax = core.coqchk(prop)
             out.oblige(f"coqchk:OG.Props.{prop} (independent checker, -o)", "coq-recheck", okc, logc)
-            out.notes.append(f"coqchk -o axioms: {ax or 'none'}")
-            extra = [a for a in ax if a not in set(getattr(mod, "ALLOWED_AXIOMS", []))]
+            out.notes.append(f"coqchk -o axioms of all loaded libraries: {ax or 'none'}")
+            # coqchk lists the axioms of every library loaded by the closure (e.g. nsatz loads Coq.Reals), whether or
+            # not a property theorem uses them (Print Assumptions above is per theorem).  Standard-library axioms are
+            # named in the trusted base; anything declared outside Coq's standard library is a broken obligation.
+            if ax:
+                out.trusted.append("standard-library axioms present in libraries loaded by the closure (coqchk -o): " + ", ".join(ax))
+            extra = [a for a in ax if not a.startswith("Coq.") and a not in set(getattr(mod, "ALLOWED_AXIOMS", []))]
             if extra:
-                out.oblige("coqchk:axioms allowed", "hygiene", False, ", ".join(extra))
+                out.oblige("coqchk:no axiom declared outside the standard library", "hygiene", False, ", ".join(extra))
         # 4. correspondence + search, property specific
         try:
             mod.run(out, tier, scratch)
